@@ -16,7 +16,7 @@ sens = json.load(open(os.path.join(ROOT, "seeded", "sens_rounds4to8.json")))
 ids = sorted(set(mE) | set(sens))
 word = {0: "silent", 1: "reported", 2: "infrastructure (exit 2)"}
 # the check had already been extended when the first run against these changes started
-PRE = {"E20_a", "E20_b", "E18_a", "E18_b", "E01_a", "E01_b", "E11_a", "E19_b", "H18_a", "H18_b", "H20_a"}
+PRE = {"Q17_a", "Q17_b", "Q14_a", "Q14_b", "Q18_a", "Q01_b", "E20_a", "E20_b", "E18_a", "E18_b", "E01_a", "E01_b", "E11_a", "E19_b", "H18_a", "H18_b", "H20_a"}
 for sid in ids:
     prop = meta(sid).get("property", "?")
     first, last = "", ""
